@@ -68,8 +68,12 @@ pub fn parse_dxtn<'a>(
         let image_bytes = get_bounded_slice(original_input, offset, size, i)?;
         // DXTn stores whole 4x4 blocks, each dimension is rounded up separately
         let (width, height) = blp_header.mipmap_size(i);
-        let blocks_n = (width as usize).div_ceil(4) * (height as usize).div_ceil(4);
-        let mut blocks_size = blocks_n * dxtn.block_size();
+        // Width and height come from the file: a product that does not fit stays at the
+        // maximum, which is then cut down to the blocks that are actually present
+        let blocks_n = (width as usize)
+            .div_ceil(4)
+            .saturating_mul((height as usize).div_ceil(4));
+        let mut blocks_size = blocks_n.saturating_mul(dxtn.block_size());
         trace!("Dxtn blocks count: {blocks_n}");
         trace!("Dxtn format: {dxtn:?}, block size: {}", dxtn.block_size());
         trace!(
